@@ -860,8 +860,8 @@ func caseTerm(n *vh.Names, c *Case) string {
 var names = []BS{"a", "b", "", "*", "a/b", "é", "interfaces", "c", " a", "a ", "A", "a,b", "a[b=c]", "a:b", "..", "a\\/b"}
 var keyNames = []BS{"a", "b", "B", "aa", "", "é", "10", "9", "name", "z", " a", "a ", "a/b", "*"}
 var keyVals = []BS{"z", "y", "x", "", "1", "*", "a/b", "é", "m", " z", "Z", "z "}
-var targets = []BS{"", "dev1", "*"}
-var origins = []BS{"", "openconfig", "o"}
+var targets = []BS{"", "dev1", "*", "o", "a"}
+var origins = []BS{"", "openconfig", "o", "dev1", "*", "a"}
 
 func randElem(r *vh.Rand, maxKeys int) ElemJ {
 	if r.Chance(1, 25) {
@@ -891,14 +891,14 @@ func randPath(r *vh.Rand) *PathJ {
 	case 0:
 		return &PathJ{Nil: true}
 	case 2: // deprecated element form
-		p := &PathJ{Target: targets[r.Pick(3, 3, 1)], Origin: origins[r.Pick(3, 2, 2)]}
+		p := &PathJ{Target: targets[r.Pick(6, 6, 2, 2, 1)], Origin: origins[r.Pick(6, 4, 4, 2, 1, 1)]}
 		n := r.Intn(4)
 		for i := 0; i < n; i++ {
 			p.Element = append(p.Element, names[r.Intn(len(names))])
 		}
 		return p
 	}
-	p := &PathJ{Target: targets[r.Pick(3, 3, 1)], Origin: origins[r.Pick(3, 2, 2)]}
+	p := &PathJ{Target: targets[r.Pick(6, 6, 2, 2, 1)], Origin: origins[r.Pick(6, 4, 4, 2, 1, 1)]}
 	n := r.Pick(2, 4, 4, 3, 1)
 	for i := 0; i < n; i++ {
 		p.Elems = append(p.Elems, randElem(r, 4))
@@ -1054,11 +1054,13 @@ func f32(x float32) uint64 { return uint64(math.Float32bits(x)) }
 func tvBasis() []TVJ {
 	return []TVJ{
 		{K: "nil"}, {K: "unset"},
-		{K: "string", S: "a"}, {K: "string", S: ""}, {K: "string", S: "b"},
+		{K: "string", S: "a"}, {K: "string", S: ""}, {K: "string", S: "b"}, {K: "string", S: "A"}, {K: "string", S: "a "}, {K: "string", S: "é"}, {K: "string", S: "e\u0301"},
+		{K: "leaflist", L: []TVJ{{K: "string", S: "a"}, {K: "string", S: "a"}, {K: "string", S: "b"}}}, {K: "leaflist", L: []TVJ{{K: "string", S: "a"}, {K: "string", S: "b"}, {K: "string", S: "b"}}},
+		{K: "leaflist", L: []TVJ{{K: "string", S: "b"}, {K: "string", S: "a"}, {K: "string", S: "a"}}},
 		{K: "int", I: 0}, {K: "int", I: 1}, {K: "int", I: -1}, {K: "int", I: math.MinInt64},
 		{K: "uint", U: 0}, {K: "uint", U: 1}, {K: "uint", U: math.MaxUint64},
 		{K: "bool", B: true}, {K: "bool", B: false},
-		{K: "bytes", S: "a"}, {K: "bytes", S: ""}, {K: "bytes", NilBuf: true},
+		{K: "bytes", S: "a"}, {K: "bytes", S: ""}, {K: "bytes", NilBuf: true}, {K: "bytes", S: "A"},
 		{K: "float", Bits: f32(1)}, {K: "float", Bits: f32(0)}, {K: "float", Bits: 0x80000000}, {K: "float", Bits: 0x7fc00000}, {K: "float", Bits: f32(1.5)},
 		{K: "float", Bits: 1}, {K: "float", Bits: 2}, {K: "float", Bits: f32(1) + 1}, {K: "float", Bits: 0x7f800000}, {K: "float", Bits: 0xffc00001},
 		{K: "double", Bits: f64(1)}, {K: "double", Bits: f64(0)}, {K: "double", Bits: 0x8000000000000000}, {K: "double", Bits: 0x7ff8000000000001},
@@ -1135,9 +1137,18 @@ func randTV(r *vh.Rand, depth int) TVJ {
 func nearMiss(r *vh.Rand, t TVJ) TVJ {
 	switch t.K {
 	case "string", "bytes", "json", "jsonietf", "ascii", "protobytes":
-		if len(t.S) > 0 && r.Chance(1, 2) {
+		switch {
+		case len(t.S) > 0 && r.Chance(1, 4):
 			t.S = t.S[:len(t.S)-1]
-		} else {
+		case len(t.S) > 0 && r.Chance(1, 3): // flip the case bit of one byte
+			b := []byte(t.S)
+			b[r.Intn(len(b))] ^= 0x20
+			t.S = BS(b)
+		case r.Chance(1, 3):
+			t.S = " " + t.S
+		case r.Chance(1, 2):
+			t.S += " "
+		default:
 			t.S += "a"
 		}
 		t.NilBuf = false
@@ -1212,7 +1223,10 @@ func nearMiss(r *vh.Rand, t TVJ) TVJ {
 func mutateTV(r *vh.Rand, t TVJ) TVJ {
 	if t.K == "leaflist" && len(t.L) > 0 && r.Chance(3, 4) {
 		out := TVJ{K: "leaflist", L: append([]TVJ{}, t.L...)}
-		switch r.Pick(5, 1, 1, 1) {
+		switch r.Pick(5, 1, 1, 1, 1) {
+		case 4: // same set of elements, different multiplicities
+			i, j := r.Intn(len(out.L)), r.Intn(len(out.L))
+			out.L[i] = out.L[j]
 		case 0:
 			i := r.Intn(len(out.L))
 			out.L[i] = mutateTV(r, out.L[i])
@@ -1495,6 +1509,23 @@ func main() {
 		e.add(&Case{Family: "join-long", Kind: "join", Pre: &PathJ{Target: "t", Elems: b.Elems}, P: &PathJ{Elems: a.Elems}})
 	}
 
+	// the same string in two roles: origin of one path = target / origin / element name of the other
+	for _, x := range []BS{"dev1", "oc", "a", "*"} {
+		shapes := []*PathJ{{}, {Elems: []ElemJ{{Name: "a"}}}, {Elems: []ElemJ{{Name: x}}}, {Element: []BS{x}}}
+		for _, sa := range shapes {
+			for _, sb := range shapes {
+				for _, ro := range [][4]BS{{x, "", "", x}, {x, x, "", ""}, {x, "", x, x}, {"", x, x, ""}, {"", "", x, x}, {x, "oc", x, ""}} {
+					a, b := *sa, *sb
+					a.Target, a.Origin, b.Target, b.Origin = ro[0], ro[1], ro[2], ro[3]
+					e.add(&Case{Family: "complete-roles", Kind: "complete", Pre: &a, P: &b})
+					e.add(&Case{Family: "join-roles", Kind: "join", Pre: &a, P: &b})
+				}
+			}
+		}
+		e.add(&Case{Family: "index-roles", Kind: "index", Prefix: true, P: &PathJ{Target: x, Origin: x, Elems: []ElemJ{{Name: x, Keys: [][2]BS{{x, x}}}}}})
+		e.add(&Case{Family: "index-roles", Kind: "index", Prefix: false, P: &PathJ{Target: x, Origin: x, Elems: []ElemJ{{Name: x, Keys: [][2]BS{{x, x}, {"k", x}}}}}})
+	}
+
 	// --- CompletePath / joinPrefixAndPath
 	sp := smallPaths()
 	for _, a := range sp {
@@ -1533,12 +1564,12 @@ func main() {
 			e.add(&Case{Family: "query-group", Kind: "query", Q: group[k], Group: group, GI: k})
 		}
 	}
-	for _, n := range []int{19, 20, 21, 40} {
+	for _, n := range []int{19, 20, 21, 31, 32, 33, 40, 64, 65} {
 		var q []BS
 		for i := 0; i < n; i++ {
 			q = append(q, plainElems[i%len(plainElems)])
 		}
-		q = append(q, "end")
+		q = append(q, "tail/with/slashes", "end")
 		e.add(&Case{Family: "query-long", Kind: "query", Q: q})
 		e.add(&Case{Family: "query-long", Kind: "query", Q: []BS{BS(strings.Repeat("ab/é", n*10)), "x"}})
 	}
